@@ -11,7 +11,7 @@ Open Scope N_scope.
    the offset-0 patch is in); server-side Client.Subscribe: positioned publications only *)
 (* reply/push written BEFORE the commit: the client path, and the patched server path *)
 Definition client_like (c : cfg) : bool :=
-  match c_var c with VClient => true | VServer => c_fix_srvorder c end.
+  match c_var c with VClient | VConnect => true | VServer => c_fix_srvorder c end.
 
 Definition guarded (c : cfg) (f : frame) : bool :=
   if client_like c
